@@ -168,6 +168,24 @@ def unit_geometry(j):
         x1 = sp.sympify(A['a_val']) * v; x2 = sp.sympify(A['b_val']) * (sp.sympify(A['c_val']) * v - 1); x3 = sp.sympify(A['d_val']) * (1 - sp.sympify(A['e_val']) * v); x4 = sp.sympify(A['b_val']) * (1 - xg2 * v / 2)
         pos = [x1, x2, x3, x4]
         v2 = sp.sympify(A['v2'])
+        # translation validation: the extracted similarity functions against the real method of a really constructed solver
+        from vc import propkit
+        kwn = {'geometry': j, 'gamma': kw_w['gamma'], 'omega': kw_w['omega'], 'rho0': kw_w['rho0'], 'eblast': kw_w['eblast']}
+        ptn = {gam: sp.Rational(str(kwn['gamma'])), om: sp.Rational(str(kwn['omega'])), rho0: sp.Rational(str(kwn['rho0'])), eb: sp.Rational(str(kwn['eblast']))}
+        try:
+            va, vb = float(alg.numeric(sp.sympify(A['vmin']), ptn, 20)), float(alg.numeric(v2, ptn, 20))
+            items = []; exp = []
+            for w_ in (0.3, 0.7):
+                vn = va + w_ * (vb - va); ptv = dict(ptn); ptv[v] = sp.Rational(repr(vn))
+                ex = propkit.expected_from_paths([([lam, dl, f, g, h], [c_ for c_ in q.pc])], ptv)
+                if ex is None: continue
+                items.append({'module': 'exactpack.solvers.sedov.sedov', 'cls': 'Sedov', 'ctor': kwn, 'name': 'sedov_funcs_standard', 'args': [vn]}); exp.append(ex)
+            n_, mm = propkit.tv_functions(items, exp, rtol=1e-7)
+            res.setdefault('tv', {'functions': 0, 'points': 0, 'mismatches': 0})
+            res['tv'] = {'functions': res['tv']['functions'] + 1, 'points': res['tv']['points'] + n_, 'mismatches': res['tv']['mismatches'] + len(mm)}
+            for m_ in mm[:3]: res['engine_errors'].append('translation validation: ' + m_)
+        except Exception as e_:
+            res['engine_errors'].append('translation validation (Sedov %s): %s' % (typ, str(e_)[:150]))
         O.append(fin(core.prove_zero(base + '/dlamdv', sp.diff(lam, v) - dl, hh, positive=pos, goal_text='dlamdv == d lambda / d v')))
         for nm, fn in (('lambda', lam), ('f', f), ('g', g), ('h', h)):
             O.append(fin(core.prove_zero('%s/shock_value:%s' % (base, nm), sp.simplify(fn.subs(v, v2)) - 1, hy, goal_text='%s(v2) == 1: the similarity functions are normalised to the post-shock state' % nm)))
